@@ -19,7 +19,9 @@ def prove(module: str, timeout: int = 900):
     d = os.path.join(BUILD, "tlaps", module)
     shutil.rmtree(d, ignore_errors=True)
     os.makedirs(d)
-    shutil.copy(os.path.join(VERIF, "spec", module + ".tla"), d)
+    for f in os.listdir(os.path.join(VERIF, "spec")):  # the proof module and whatever it extends
+        if f.endswith(".tla"):
+            shutil.copy(os.path.join(VERIF, "spec", f), d)
     t0 = time.time()
     try:
         p = subprocess.run([exe, "--toolbox", "0", "0", module + ".tla"], cwd=d, capture_output=True, text=True, timeout=timeout)
